@@ -106,6 +106,11 @@ func (fx *FnExec) pureApply(st *State, full string, sig *types.Signature, recv *
 			fx.c.Assume(Implies(st.guard, And(Le(IntLit(0), ln), Le(ln, maxInt))))
 			r := fx.newRef(st)
 			hn, hs := fx.elemHeapName(sl.Elem())
+			if n, ok := sl.Elem().(*types.Named); ok && fx.e.isPurePkg(n.Obj().Pkg()) && !types.IsInterface(n) {
+				// slices of syntax-tree nodes are built by the accessors and never written by /repo (A4):
+				// their memory survives calls with unknown effects
+				fx.e.pureElemHeaps[hn] = true
+			}
 			fx.heapSet(st, hn, Store(fx.heapGet(st, hn, hs), r, arr))
 			// element facts (pointers into pre-existing memory etc.) for every index
 			k := Var("k!pf", SInt)
